@@ -224,11 +224,21 @@ def run(ctx):
         for _ in range(40 if ctx.tier == 'quick' else 600):
             ep = rng.choice(sorted(builders))
             files = gen_files(rng, ep, eps)
+            flag_default = ep == 'nbmerge' and rng.random() < 0.4
+            if flag_default:
+                # the flag is given with exactly the built-in default while a config file says something else
+                where = rng.choice(['cwd', 'user'])
+                files[where] = dict(files.get(where) or {})
+                files[where]['NbMerge'] = dict(files[where].get('NbMerge') or {}, merge_strategy=rng.choice(['use-local', 'use-remote', 'use-base']))
             d.write(files)
             asc, order = d.ascending(files)
             flags = {}
             argv = []
-            if ep == 'nbmerge' and rng.random() < 0.6:
+            if flag_default:
+                flags['merge_strategy'] = 'inline'
+                argv += ['--merge-strategy', 'inline']
+                ctx.count('parser: flag equal to the built-in default against a config value')
+            elif ep == 'nbmerge' and rng.random() < 0.6:
                 flags['merge_strategy'] = rng.choice(VALUES['merge_strategy'])
                 argv += ['--merge-strategy', flags['merge_strategy']]
             if ep == 'nbmerge' and rng.random() < 0.3:
